@@ -408,9 +408,14 @@ class vDDDLists:
             if 'TZID' in dt.params:
                 tzid = dt.params['TZID']
 
+        self.params = Parameters()
+        values = {dt.params.get('VALUE') for dt in vDDD}
+        if len(values) == 1 and None not in values:
+            # all DATE or all PERIOD: not the DATE-TIME default of RDATE/EXDATE
+            self.params['VALUE'] = values.pop()
         if tzid:
             # NOTE: no support for multiple timezones here!
-            self.params = Parameters({'TZID': tzid})
+            self.params['TZID'] = tzid
         self.dts = vDDD
 
     def to_ical(self):
@@ -491,7 +496,11 @@ class vDDDTypes(TimeBase):
         else: # isinstance(dt, tuple)
             self.params = Parameters({'value': 'PERIOD'})
 
-        tzid = tzid_from_dt(dt) if isinstance(dt, (datetime, time)) else None
+        if isinstance(dt, tuple) and dt and isinstance(dt[0], datetime):
+            # a period is written in the time zone of its start
+            tzid = tzid_from_dt(dt[0])
+        else:
+            tzid = tzid_from_dt(dt) if isinstance(dt, (datetime, time)) else None
         if tzid is not None and tzid != 'UTC':
             self.params.update({'TZID': tzid})
 
